@@ -200,6 +200,8 @@ def judge(ctx, run, base, sym, stats):
         # the debug-build spelling of the documented abort in uv__io_poll (registration with the poller failed)
         stats["aborts"]["uv__io_poll(assert)"] = stats["aborts"].get("uv__io_poll(assert)", 0) + 1
         run.abort = "assert"
+    elif run.hang:
+        pass
     elif st.startswith("signal"):
         txt = " | ".join(l for l in run.lines if "Assertion" in l or "SUMMARY" in l)[:300]
         key = re.sub(r"[^A-Za-z0-9_]+", "_", (re.findall(r"Assertion `([^']*)'", txt) or [st])[0])[:40]
